@@ -121,6 +121,7 @@ def run_circuit(case):
     ws = wc.make_sim(c, delays, case['sims'], c_caps=case['caps'], strip=case['strip'], reuse=case['reuse'], cuda=case.get('cuda', False))
     i, t, f = wc.rand_stim(srng, ws.s_len, case['sims'])
     wc.assign(ws, i, t, f)
+    ws.assign_check = ws.assign_mismatch      # s_to_c must write the stimulus it was given (also on an object with a history)
     if case['multi']: wc.overwrite_inputs(ws, srng)
     # value sources of the rows resolved through the stems of the Lean SimOps model (= `MapIn.src`); without stripping: identity
     stems = wc.model_stems(c, case['strip'])
@@ -151,6 +152,8 @@ def eval_case(case):
         return gate_oracle(case, ents, term)
     c, ws, reqs, ini, fin, _ = run_circuit(case)
     TMIN = wc.consts()[0]
+    if getattr(ws, 'assign_check', None):
+        return False, ws.assign_check, {'waveform_in_memory': 'the assigned stimulus'}
     # ports: s[3], s[6] vs Lean spec evaluator on inits / finals
     lines = [f'net {circ.dump_net(c)}']
     for s in range(case['sims']):
